@@ -307,23 +307,10 @@ def _check_blocks_padded(repo, r4, s, enc, ft, L):
 
 
 def _check_partition_pads(repo, r4):
-    fi = repo.func("toolkit/database_utils.py", "partition_identifiers_to_blocks")
-    # each yielded block is padded to block_size_bytes
-    pads = [st for st in ast.walk(fi.node) if isinstance(st, ast.AugAssign) and isinstance(st.op, ast.Add) and any(
-        isinstance(c, ast.Constant) and c.value == b"\x00" for c in ast.walk(st.value))]
-    ylds = [y for y in ast.walk(fi.node) if isinstance(y, ast.Yield)]
-    r4.require(bool(pads) and bool(ylds), fi, "partition pads blocks", "partition_identifiers_to_blocks no longer zero-pads short blocks to block_size_bytes")
-    if pads and ylds:
-        cfg = cfg_of(fi.node)
-        pn = set()
-        for p in pads:
-            pn |= set(cfg.nodes_of(p))
-        # guarded by len(block) < block_size_bytes
-        guards = [st for st in ast.walk(fi.node) if isinstance(st, ast.If) and any(p is x for p in pads for b in st.body for x in ast.walk(b))]
-        ok = all(isinstance(g.test, ast.Compare) and isinstance(g.test.ops[0], (ast.Lt, ast.NotEq, ast.LtE)) and
-                 "block_size_bytes" in unparse(g.test) for g in guards)
-        amount_ok = all("block_size_bytes" in unparse(p.value) and "len(" in unparse(p.value) for p in pads)
-        r4.require(ok and amount_ok, fi, "partition pad amount", "partition_identifiers_to_blocks pads by something other than block_size_bytes - len(block)")
+    """Every block that partition yields has the fixed block size (shared with C17/R17.1: unpadded blocks leave only when
+    they are known to be block_size long, padded ones are <data> + zero bytes * (block_size - len(<data>)))."""
+    from .c17 import _check_partition
+    _check_partition(repo, r4)
 
 
 # ----------------------------------------------------------------------------- self-test variants
